@@ -1477,6 +1477,126 @@ def method_table(tree: ast.Module) -> list[tuple[str, str]]:
     return [(cls, f.name) for cls, fns in _class_functions(tree).items() for f in fns]
 
 
+# ---------------------------------------------------------------------------------------------- __hash__
+_PURE_HASH_BUILTINS = {'hash', 'round', 'tuple', 'abs', 'float', 'int'}
+
+
+def inplace_methods(tree: ast.Module) -> list[tuple[str, str]]:
+    """(defining class, name) of every in-place operator method of the nine classes, exec() templates included
+    (`__iOP__` stands for the operators a template is instantiated for) and class-body aliases `__iadd__ = f`."""
+    pat = re.compile(r'__i(' + '|'.join(OPERATOR_NAMES) + r'|OP)__\Z')
+    out: list[tuple[str, str]] = []
+    for cname, fns in _class_functions(tree).items():
+        for f in fns:
+            if pat.match(f.name) and not _is_stub(f):
+                out.append((cname, f.name))
+    for c in tree.body:
+        if isinstance(c, ast.ClassDef) and c.name in CLASSES:
+            for st in c.body:
+                if isinstance(st, (ast.Assign, ast.AnnAssign)) and st.value is not None \
+                        and not (isinstance(st.value, ast.Constant) and st.value.value is None):
+                    for t in _targets(st):
+                        if isinstance(t, ast.Name) and pat.match(t.id):
+                            out.append((c.name, t.id))
+    return sorted(set(out))
+
+
+def hash_kinds(tree: ast.Module) -> tuple[list[tuple[str, str]], dict]:
+    """What `hash(obj)` is for each of the six concrete classes (SM/FrozenHash.v hkind), following Python's rules:
+    the first class of the MRO whose body binds __hash__ decides; a body that defines __eq__ without binding __hash__
+    makes the class unhashable; with neither anywhere it is object.__hash__ (identity).  A `def __hash__` is HSlots l
+    when its result is an expression over slots of self (directly or through a property whose getter returns the
+    slot), constants and pure builtins only; anything else is HUnknown."""
+    classes = {c.name: c for c in tree.body if isinstance(c, ast.ClassDef)}
+    out: list[tuple[str, str]] = []
+    info: dict[str, str] = {}
+
+    def getters(mro: list[ast.ClassDef]) -> dict[str, str]:
+        g: dict[str, str] = {}
+        for c in reversed(mro):
+            for f in c.body:
+                if isinstance(f, ast.FunctionDef) and any(isinstance(d, ast.Name) and d.id == 'property' for d in f.decorator_list):
+                    body = _nodoc(f.body)
+                    if len(body) == 1 and isinstance(body[0], ast.Return) and isinstance(body[0].value, ast.Attribute) \
+                            and isinstance(body[0].value.value, ast.Name) and body[0].value.value.id == f.args.args[0].arg:
+                        g[f.name] = body[0].value.attr
+                    else:
+                        g.pop(f.name, None)
+        return g
+
+    def of_def(f: ast.FunctionDef, mro: list[ast.ClassDef], fam: tuple[str, ...]) -> str:
+        body = _nodoc(f.body)
+        if not f.args.args or len(body) == 0 or not isinstance(body[-1], ast.Return) or body[-1].value is None:
+            return 'HUnknown'
+        if any(not isinstance(b, (ast.Assign, ast.AnnAssign)) for b in body[:-1]):
+            return 'HUnknown'
+        me = f.args.args[0].arg
+        env = _single_bindings(f)
+        e = body[-1].value
+        for _ in range(6):
+            e = _subst(e, env)
+        props = getters(mro)
+        slots: list[str] = []
+        ok = True
+
+        def walk(n: ast.AST) -> None:
+            nonlocal ok
+            if isinstance(n, ast.Attribute):
+                if isinstance(n.value, ast.Name) and n.value.id == me and isinstance(n.ctx, ast.Load):
+                    sl = n.attr if n.attr in fam else props.get(n.attr)
+                    if sl in fam:
+                        if sl not in slots:
+                            slots.append(sl)
+                        return
+                ok = False
+                return
+            if isinstance(n, ast.Call):
+                if not (isinstance(n.func, ast.Name) and n.func.id in _PURE_HASH_BUILTINS) or n.keywords:
+                    ok = False
+                    return
+                for a in n.args:
+                    walk(a)
+                return
+            if isinstance(n, ast.Name):
+                ok = False          # any free name (self as a whole, id, a global) is not a slot
+                return
+            if isinstance(n, (ast.Tuple, ast.BinOp, ast.UnaryOp, ast.Constant, ast.operator, ast.unaryop, ast.expr_context)):
+                for ch in ast.iter_child_nodes(n):
+                    walk(ch)
+                return
+            ok = False
+        walk(e)
+        return 'HSlots [' + '; '.join(_s(x) for x in slots) + ']' if ok else 'HUnknown'
+
+    for cname, base in CONCRETE.items():
+        mro = [classes[n] for n in (cname, base) if n in classes]
+        if len(mro) != 2:
+            raise TranslateError(f'class {cname} or {base} not found')
+        fam = FAMILY_SLOTS[base]
+        kind = None
+        for c in mro:
+            bound = None
+            has_eq = False
+            for st in c.body:
+                if isinstance(st, ast.FunctionDef) and st.name == '__hash__' and not _is_stub(st):
+                    bound = of_def(st, mro, fam)
+                elif isinstance(st, ast.FunctionDef) and st.name == '__eq__':
+                    has_eq = True
+                elif isinstance(st, (ast.Assign, ast.AnnAssign)):
+                    for t in _targets(st):
+                        if isinstance(t, ast.Name) and t.id == '__hash__':
+                            v = st.value
+                            bound = 'HUnhashable' if isinstance(v, ast.Constant) and v.value is None else 'HUnknown'
+            if bound is None and has_eq:
+                bound = 'HUnhashable'
+            if bound is not None:
+                kind = bound
+                info[cname] = f'{c.name}: {bound}'
+                break
+        out.append((cname, kind or 'HIdentity'))
+    return out, {'hash_resolution': info}
+
+
 # ---------------------------------------------------------------------------------------------- result kinds
 CONCRETE = {'Vec': 'VecBase', 'FrozenVec': 'VecBase', 'Angle': 'AngleBase', 'FrozenAngle': 'AngleBase',
             'Matrix': 'MatrixBase', 'FrozenMatrix': 'MatrixBase'}
@@ -2129,6 +2249,9 @@ def translate() -> tuple[str, dict]:
     info.update(rinfo)
     shapes, sinfo = copy_shapes(tree)
     info.update(sinfo)
+    hashes, hinfo = hash_kinds(tree)
+    inplace = inplace_methods(tree)
+    info.update(hinfo)
     # __str__: three numbers separated by single spaces
     def plain3(p, sep, fam, pre='', post=''):
         want = ([['lit', pre]] if pre else []) + [['num', fam[0]], list(sep), ['num', fam[1]], list(sep), ['num', fam[2]]] + ([['lit', post]] if post else [])
@@ -2143,7 +2266,7 @@ def translate() -> tuple[str, dict]:
     lines = [
         '(* GENERATED by translate/c05_sites.py from src/srctools/math.py. Do not edit. *)',
         'From Coq Require Import ZArith NArith List String.',
-        'From SV Require Import Num.Dec6 Num.AngleSites Num.AngleCtor Num.VecText SM.FrozenOps SM.FrozenCopy SM.FrozenCopyValue.',
+        'From SV Require Import Num.Dec6 Num.AngleSites Num.AngleCtor Num.VecText SM.FrozenOps SM.FrozenCopy SM.FrozenCopyValue SM.FrozenHash.',
         'Import ListNotations.', 'Open Scope string_scope.',
         '(* every store to an _pitch/_yaw/_roll slot: (file:Class.function:slot, classification of the stored value) *)',
         'Definition angle_sites : list (string * rhs) := [',
@@ -2184,13 +2307,21 @@ def translate() -> tuple[str, dict]:
         'Definition copy_shapes : list copy_entry := [',
         ';\n'.join(f'  ({_s(c)}, {_s(m)}, {_s(rc)}, {t})' for c, m, rc, t in shapes),
         '].',
+        '(* hash(obj) for the six concrete classes after Python\'s resolution of __hash__ / __eq__ *)',
+        'Definition hash_kinds : list hash_row := [',
+        ';\n'.join(f'  ({_s(c)}, {k})' for c, k in hashes),
+        '].',
+        '(* every in-place operator method: (defining class, name) *)',
+        'Definition inplace_rows : list inplace_row := [',
+        ';\n'.join(f'  ({_s(c)}, {_s(m)})' for c, m in inplace),
+        '].',
         '(* methods whose result the census treats as a new object because of their NAME, with the kind read from their returns *)',
         'Definition fresh_by_name : list (string * rkind) := [',
         ';\n'.join(f'  ({_s(w)}, {k})' for w, k in fresh),
         '].',
         '',
     ]
-    side = {'angle_ctor_rows': [list(r) for r in ctor_rows], 'fresh_by_name': [list(x) for x in fresh], 'copy_shapes': [list(x) for x in shapes], 'angle_sites': [list(s) for s in sites], 'angle_creations': [list(c) for c in creations], 'format_float': cfg, 'parse_vec_str': pcfg, 'str_templates': strs,
+    side = {'inplace_rows': [list(r) for r in inplace], 'hash_kinds': [list(h) for h in hashes], 'angle_ctor_rows': [list(r) for r in ctor_rows], 'fresh_by_name': [list(x) for x in fresh], 'copy_shapes': [list(x) for x in shapes], 'angle_sites': [list(s) for s in sites], 'angle_creations': [list(c) for c in creations], 'format_float': cfg, 'parse_vec_str': pcfg, 'str_templates': strs,
             'mut_events': [list(m) for m in muts], 'result_kinds': [list(r) for r in results], 'n_methods': len(meths), **info,
             'digests': {'parse_vec_str': _digest(tree, 'parse_vec_str'), 'format_float': cfg['digest']}}
     return '\n'.join(lines), side
